@@ -1,6 +1,7 @@
 package harness
 
 import (
+	"github.com/quickfixgo/quickfix/verifsim/simsync"
 	"fmt"
 	"time"
 
@@ -30,6 +31,10 @@ type c05Side struct {
 
 func runC05(env *Env, tier string) {
 	ch := env.Ch
+	if ch.Chance("stubcounterparty", 1, 12) {
+		c05StrandedFrames(env)
+		return
+	}
 	w := simnet.NewWorld()
 	simnet.SetCurrent(w)
 	w.Latency = time.Duration(100+ch.Choose("latency_us", 19900)) * time.Microsecond
@@ -410,4 +415,128 @@ func firstMissing(src []string, got map[string]int) string {
 		}
 	}
 	return ""
+}
+
+
+// c05StrandedFrames is the one situation the two-engine network cannot produce (it delivers one chunk per step):
+// the initiator ends a session ITSELF while complete frames of the counterparty are already waiting behind the
+// message that made it do so - nobody will ever take them from the reader. A real initiator against the stub
+// counterparty: logon, then one read carrying a session-ending message followed by 2-4 more frames. What C05
+// promises afterwards is that the link comes back: the initiator dials again (within three reconnect intervals
+// after its logout wait), logs on, and a message sent then is delivered exactly once. Which ready source the
+// session loop serves first while the frames wait is decided by the simulator (select gate).
+func c05StrandedFrames(env *Env) {
+	ch := env.Ch
+	c := DrawBaseCfg(env)
+	c.Initiator = true
+	c.ReconnectInterval = 5 + ch.Choose("reconnect", 4)
+	c.LogonTimeout = 4
+	c.LogoutTimeout = []int{2, 1, 3}[ch.Choose("logouttimeout", 3)]
+	hb := []int{30, 5, 10}[ch.Choose("hb", 3)]
+	c.HeartBtInt = hb
+	if ch.Chance("filestore", 1, 2) {
+		c.Store, c.StoreDir = "file", "/c05/S"
+	}
+	orders := [][]int{{2, 3, 1, 0, 4}, {3, 2, 1, 0, 4}, {0, 2, 3, 1, 4}, {1, 2, 3, 0, 4}}
+	simsync.SetSelectOrder(orders[ch.Choose("selectorder", len(orders))])
+	env.OnCleanup(func() { simsync.SetSelectOrder(nil) })
+	s := StartSut(env, c)
+	p := s.P
+	if _, ok := s.Logon(hb, false); !ok {
+		env.Fatalf("logon failed: %v", summarize(p.Recv))
+	}
+	rounds := 1 + ch.Choose("rounds", 3)
+	delivered := func(id string) int {
+		n := 0
+		for _, a := range s.E.App.Snapshot() {
+			if a.Kind == "FromApp" && a.ID == id {
+				n++
+			}
+		}
+		return n
+	}
+	for r := 0; r < rounds && !env.Failed(); r++ {
+		// some ordinary traffic first
+		for i := ch.Choose("before", 3); i > 0; i-- {
+			id := p.NextID()
+			p.Send("D", AppBody(id), MsgOpt{})
+			if delivered(id) != 1 {
+				env.Violate("C05/not-delivered", "in-sequence application message %s delivered %d times on an established session", id, delivered(id))
+				return
+			}
+		}
+		var burst []byte
+		kind := ch.Choose("ender", 4)
+		var x []byte
+		switch kind {
+		case 0: // the counterparty logs out
+			x, _ = p.Build("5", nil, MsgOpt{})
+		case 1: // wrong TargetCompID: Reject + Logout
+			wrong := "NOBODY"
+			x, _ = p.Build("D", AppBody(p.NextID()), MsgOpt{Target: &wrong})
+		case 2: // stale SendingTime: Reject + Logout
+			x, _ = p.Build("D", AppBody(p.NextID()), MsgOpt{TimeDelta: -10 * time.Minute})
+		case 3: // wrong BeginString: Logout
+			b := "FIX.4.0"
+			if c.BeginString == b {
+				b = "FIX.4.1"
+			}
+			x, _ = p.Build("D", AppBody(p.NextID()), MsgOpt{Begin: &b})
+		}
+		burst = append(burst, x...)
+		behind := 2 + ch.Choose("behind", 3)
+		for i := 0; i < behind; i++ {
+			y, _ := p.Build("D", AppBody(p.NextID()), MsgOpt{})
+			burst = append(burst, y...)
+		}
+		env.Note("round %d: session-ending message (kind %d) and %d frames behind it in one read", r, kind, behind)
+		env.Stat("fault_frames_stranded_behind_session_end")
+		env.Rec(fmt.Sprintf("peer>:%d", p.Conn), "peer>", string(burst), true)
+		p.EP.Feed(burst)
+		env.Settle()
+		// an honest counterparty answers a Logout with a Logout and hangs up; give the engine its logout wait
+		env.Advance(300 * time.Millisecond)
+		p.Collect()
+		if lo, ok := LastOfType(p.Recv, "5"); ok && lo.Conn == p.Conn && kind != 0 && p.Connected() {
+			z, _ := p.Build("5", nil, MsgOpt{})
+			p.EP.Feed(z)
+			env.Settle()
+		}
+		env.Advance(time.Duration(c.LogoutTimeout)*time.Second + 500*time.Millisecond)
+		p.Collect()
+		if p.Connected() {
+			p.Drop()
+		}
+		p.EP = nil
+		if s.E.App.LoggedOn() {
+			env.Advance(2 * time.Second)
+		}
+		// "... once the link stays up": it has to come up first
+		wait := time.Duration(3*c.ReconnectInterval+c.LogonTimeout) * time.Second
+		if !p.Connect(wait) {
+			env.Violate("C05/initiator-does-not-dial-again", "the initiator ended its session with %d complete frames of the counterparty waiting behind the message that ended it, and has not dialled again %v later (ReconnectInterval %d s)", behind, wait, c.ReconnectInterval)
+			return
+		}
+		env.Stat("probe_initiator_dialled_again_after_stranded_frames")
+		lg, ok := LastOfType(p.Recv, "A")
+		if !ok || lg.Conn != p.Conn {
+			env.Violate("C05/initiator-does-not-dial-again", "the new connection carries no Logon of the initiator")
+			return
+		}
+		// numbers: the session-ending message and the frames behind it were never consumed; an honest counterparty
+		// continues where the engine says it is (it would replay on request; here it simply renumbers from there)
+		p.OutSeq = NewAdv(s, hb, AdvOpts{}).engT()
+		p.Send("A", p.LogonBody(hb, false), MsgOpt{})
+		if !p.Connected() || !s.E.App.LoggedOn() {
+			env.Violate("C05/session-does-not-come-back", "the initiator dialled again but the logon did not complete: %s", summarize(p.Recv[len(p.Recv)-min(4, len(p.Recv)):]))
+			return
+		}
+		id := p.NextID()
+		p.Send("D", AppBody(id), MsgOpt{})
+		if n := delivered(id); n != 1 {
+			env.Violate("C05/not-delivered", "application message %s sent on the re-established session was delivered %d times", id, n)
+			return
+		}
+		env.Nontrivial = true
+	}
 }
